@@ -46,9 +46,9 @@ import (
 	"testing"
 	"time"
 
+	"go.sia.tech/core/consensus"
 	rhp2 "go.sia.tech/core/rhp/v2"
 	proto4 "go.sia.tech/core/rhp/v4"
-	"go.sia.tech/core/consensus"
 	"go.sia.tech/core/types"
 	"go.sia.tech/coreutils"
 	"go.sia.tech/coreutils/chain"
@@ -238,7 +238,7 @@ func c06RenewRun(t *testing.T, em *verifEmitter, id int, sc c06Sched) {
 	var ph, eh uint64
 	started := false
 	negotiated, renewalOnChain, renewalValid, dataGone := false, false, false, false
-	inTimePass := false             // a pass ran at a tip inside the window while the best chain was below the expiration height
+	inTimePass := false                            // a pass ran at a tip inside the window while the best chain was below the expiration height
 	proofHanded := map[types.FileContractID]bool{} // a proof went to the pool and is not mined yet
 	plain := map[types.FileContractID]bool{}       // contracts whose formation set is an ordinary formation
 
@@ -268,6 +268,17 @@ func c06RenewRun(t *testing.T, em *verifEmitter, id int, sc c06Sched) {
 			}
 			if confirmed && unresolved && c.ExpirationHeight <= h {
 				want[key{"v2-expire", c.ID}] = true
+			}
+			// a v2 revision accepted now must still be confirmable before the proof window opens
+			// (the proof is built from the stored roots, the chain keeps the last CONFIRMED revision):
+			// the contract may report itself revisable only while tip + submission buffer (5 here) is
+			// below its proof height — independent of what the manager computes
+			if st, unlock, err := node.com.LockV2Contract(c.ID); err == nil {
+				tip := cm.Tip().Height
+				if st.Revisable && tip+5 >= c.ProofHeight {
+					em.Monitor("v2-contract-revisable-after-last-confirmable-height", fmt.Sprintf("contract %s at tip %d: proof height %d, expiration %d, status %v", idOf(c.ID), tip, c.ProofHeight, c.ExpirationHeight, c.Status))
+				}
+				unlock()
 			}
 		}
 		v1s, _, err := node.com.Contracts(contracts.ContractFilter{})
